@@ -6,7 +6,8 @@
    covered by the run-time judge of the check only — see lib/manifest/C02.json. *)
 From AV Require Import Base.Prelude Gen.LayoutConsts Model.Layout Model.LayoutSpec Model.Gsub Model.GsubSpec
   Proofs.LayoutProofs Proofs.GsubProofs Proofs.LigatureProofs Proofs.ContextProofs
-  Gen.PreprocessTables Model.Preprocess Proofs.PreprocessTop.
+  Gen.PreprocessTables Model.Preprocess Proofs.PreprocessTop
+  Gen.GposConsts Model.Gpos Model.Position Model.GposSpec Proofs.GposProofs Proofs.PositionProofs Proofs.GposInvProofs.
 From Coq Require Import Permutation.
 Open Scope Z_scope.
 
@@ -50,3 +51,12 @@ Theorem C02_ligature_keeps_characters_partial : forall mt gd subs fuel l out,
   lig_scan fuel mt gd subs l = Ok out -> Permutation (chars out) (chars l).
 Proof. exact ligature_scan_preserves_characters. Qed.
 Print Assumptions C02_ligature_keeps_characters_partial.
+
+(* every attachment refers to a glyph inside the run: gpos::apply as a whole (every lookup type, nested
+   contextual lookups, kern fallback) keeps the run's length and glyphs and leaves every mark pointing
+   at an earlier glyph and every cursive glyph at a later one — for ARBITRARY GPOS/GDEF/kern data *)
+Theorem C02_attachments_in_range_partial : forall m t gd kern kerning custom script lang l l',
+  wf l -> gpos_apply m t gd kern kerning custom script lang l = Ok l' ->
+  len l' = len l /\ iids l' = iids l /\ wf l'.
+Proof. exact attachment_indices_in_range. Qed.
+Print Assumptions C02_attachments_in_range_partial.
